@@ -118,9 +118,12 @@ class RedisMessageBroker(MessageBrokerT):
         else:  # pragma: no cover
             params = self.PARAMETERS_CLASS()
 
-        reject_to = "n"  # normal queue
-        if raw_params[1] is not None:
-            reject_to = raw_params[1].decode()
+        if raw_params[1] is None:
+            # the message is not marked as taken (e.g. it has been acked or requeued already),
+            # there is nothing to give back - pushing its name again would duplicate or resurrect it
+            return
+
+        reject_to = raw_params[1].decode()
 
         async with self.conn.pipeline(transaction=True) as pipe:
             if reject_to == "dead":
